@@ -14,7 +14,7 @@ from vlib.core import exc_site, fmt_exc
 PROPERTY = "C20"
 LEVEL = "fault_enumeration"
 CLAIM = {
-    "text": "Fault enumeration by runtime monitoring, three monitors: (1) a FileWriter.write/cwrite hook re-reads the output through a fresh descriptor after every write of every streaming writer (invert, mask, downsample, extract_samps/chans/bands, subband, zero-DM, requantize, block/time-series/spectrum writers) for several gulps and requires a complete header, each snapshot extending the previous one and being a prefix of the final file, and a complete file when the call returns; (2) the same calls run in a child under strace and an offline checker audits every write/lseek/dup/ftruncate/rename/mmap syscall (append-only, header in one write, payloads == final file), i.e. crash points between any two syscalls; (3) real crashes: for every k a child process is killed with os._exit right after its k-th write and the surviving file(s) must open with FilReader and hold exactly the first floor(datalen/stride) samples of the uninterrupted result; plus every byte-length truncation of a final file at or after the header. Writers producing more than 1 MiB per product are included; the thorough tier also runs the repository's own test-suite with an append-only contract on every FileWriter.write/cwrite. Rounds 7-8 added: products ending in all-zero blocks judged against their independently known size, the two-pass cleaner on a sub-range, and writers run under a file-size limit that cuts the last block (they must raise, or what they return is complete).",
+    "text": "Fault enumeration by runtime monitoring, three monitors: (1) a FileWriter.write/cwrite hook re-reads the output through a fresh descriptor after every write of every streaming writer (invert, mask, downsample, extract_samps/chans/bands, subband, zero-DM, requantize, block/time-series/spectrum writers) for several gulps and requires a complete header, each snapshot extending the previous one and being a prefix of the final file, and a complete file when the call returns; (2) the same calls run in a child under strace and an offline checker audits every write/lseek/dup/ftruncate/rename/mmap syscall (append-only, header in one write, payloads == final file), i.e. crash points between any two syscalls; (3) real crashes: for every k a child process is killed with os._exit right after its k-th write and the surviving file(s) must open with FilReader and hold exactly the first floor(datalen/stride) samples of the uninterrupted result; plus every byte-length truncation of a final file at or after the header. Writers producing more than 1 MiB per product are included; the thorough tier also runs the repository's own test-suite with an append-only contract on every FileWriter.write/cwrite. Rounds 7-8 added: products ending in all-zero blocks judged against their independently known size, the two-pass cleaner on a sub-range, and writers run under a file-size limit that cuts the last block (they must raise, or what they return is complete). Round 9 added: a dedispersed block written with to_file.",
     "design_ref": "DESIGN.md section 3 (C20), 2.4",
     "note": "Crash model = process death after a completed syscall (no power loss, no torn single write). Trusted: strace -f -y output format, vlib/sigfile.py parser. Truncated files are read with read_block (the reader refuses a trailing partial sample only in read_plan).",
     "technique": "runtime monitoring with fault injection: snapshot-after-every-write hook, strace write-log audit, kill-after-k-th-write crash enumeration, exhaustive byte-length truncation",
